@@ -59,6 +59,8 @@ def main():
 
     # 2. build = kernel re-checks every theorem whose inputs changed
     targets = ['CompmechVerif.Props.' + a.pid] + list(getattr(plug, 'EXTRA_TARGETS', []))
+    if os.path.exists(os.path.join(common.LEAN, 'CompmechVerif', 'Drv', a.pid + '.lean')):
+        targets.append('CompmechVerif.Drv.' + a.pid)
     if not broken:
         ok, out = common.lake_build(targets)
         if not ok:
